@@ -172,9 +172,9 @@ fn skip_until_next_comma(input: ParseStream) -> proc_macro2::TokenStream {
             let mut stuff = quote!();
             let mut rest = *cursor;
             while let Some((tt, next)) = rest.token_tree() {
-                if let Some((TokenTree::Punct(punct), _)) = next.token_tree() {
+                if let TokenTree::Punct(punct) = &tt {
                     if punct.as_char() == ',' {
-                        return Ok((stuff, next));
+                        return Ok((stuff, rest));
                     }
                 }
 
